@@ -18,8 +18,10 @@ constexpr auto copy_n(InputIt first, Size count, OutputIt result) -> OutputIt
 {
     if (count > 0) {
         *result = *first;
+        ++result;
         for (Size i = 1; i < count; ++i) {
-            *(++result) = *(++first);
+            *result = *(++first);
+            ++result;
         }
     }
     return result;
